@@ -172,7 +172,11 @@ CLAIMED = {
               "Binary64 (Props/C05K.lean, Proofs/FloatMargin.lean): for ANY rounding operator with the IEEE round-to-nearest laws (monotone, exact on representables, relative error 2^-53; RoundOK - proved of the executable "
               "Py.toDouble on the rationals), the library's np.sqrt(np.sum((q-p)**2,1)) <= cutoff evaluated in NumPy's order decides exactly as d^2 <= c^2 whenever |d^2-c^2| > 8u c^2 (contact_decision_eq); for PDB text "
               "coordinates the margin is 2^-53 c (8c+1e5) < 1e-10 A^2 (pdb_decision_eq), so for three-decimal coordinates and a decimal cutoff the only undecided case is the squared text distance EQUAL to the cutoff squared "
-              "(pdb_lattice_decision_eq); the harness samples the theorem at its edge (8u..48u) and the NumPy evaluation order bit for bit."),
+              "(pdb_lattice_decision_eq); the harness samples the theorem at its edge (8u..48u) and the NumPy evaluation order bit for bit. "
+              "TRANSLATED LOOP (py/translate_ext_contacts.py -> Gen/Contacts.lean, runtime Py/Dict.lean): get_contact_atoms, _extend_contact_to_residue and get_contact_residues are translated from the AST on every run "
+              "(statement order and names kept, loops as folds, self.get as the C03 selection Tbl.select, the distance test as one primitive) and PROVED equal to the hand model for every table and argument combination "
+              "(genc_get_contact_atoms_eq_model: same dictionaries, key order, lists and exceptions; genc_extend_contact_to_residue_eq_model for every iteration order of list(set(..)); select_*_is_c03); the driver answers with hand "
+              "model AND generated function, and the harness requires implementation = hand model = generated."),
         note=BASE_NOTE + "Float distance decision = exact decision: now a theorem outside the margin 8u c^2 (abstract IEEE rounding contract, no overflow/underflow); inside the margin generated distances are exactly on a cutoff; SQLite returns rows in rowid order; single-model files.",
         technique='Lean 4 proof model = set-theoretic spec for all inputs + differential correspondence on at-cutoff lattices',
         design_ref='DESIGN.md 5/C05, 12'),
@@ -182,7 +186,9 @@ CLAIMED = {
               "triples of the contact atoms of the very get_contact_atoms call the routine makes, the residue pair map is exactly the projection of the atom pair map (residues_are_projection, "
               "residue_pairs_are_projection), extension returns exactly all atoms (all backbone atoms in backbone mode) of every residue owning a contact atom - nothing missing, nothing foreign; residues sharing a number "
               "but differing in name or chain are distinct (extension_is_closure, extension_of_call, extension_leaves_pairs, spec_extension_meaning), plus two-chain corollaries against the C05 Spec and rejection of unknown "
-              "chains. Correspondence: the C05 generator + residues sharing numbers across chains and names, negative numbers, all option combinations incl. extend_to_residue."),
+              "chains. Correspondence: the C05 generator + residues sharing numbers across chains and names, negative numbers, all option combinations incl. extend_to_residue. TRANSLATED (Props/C14K.lean): _extend_contact_to_residue and "
+              "get_contact_residues are translated from the AST on every run (Gen/Contacts.lean) and proved equal to the hand model (genc_extend_contact_to_residue_eq_model for every iteration order of list(set(..)), genc_extend_is_closure, "
+              "genc_get_contact_residues_eq_model)."),
         note=BASE_NOTE + "As C05 (the float margin theorems are re-exported in Props/C14K.lean).",
         technique='Lean 4 proof (projection/closure for all inputs) + differential correspondence',
         design_ref='DESIGN.md 5/C14, 12'),
@@ -246,8 +252,11 @@ CLAIMED = {
               "key appears exactly once (join_once); intersection_is_sliced_join, per_table_query; the intersected database holds one table per structure whose k-th table is the round trip of component k of the join (intersect_tables, intersect_tables_text); "
               "default_match_is_the_source's pins the translated default. Correspondence: 2-4 structures from a common parent by independent "
               "deletions, coordinate changes, point mutations and record permutations x EVERY match-key subset (through both get_intersection and intersect(match=...)) x attribute lists, compared as sorted lists of aligned "
-              "tuples (SQL row order is never relied upon); every table of the intersected database read back."),
-        note=BASE_NOTE + "INNER JOIN = nested loop is sampled.",
+              "tuples (SQL row order is never relied upon); every table of the intersected database read back; user-chosen table names in non-alphabetical order; per-structure queries and sub-selections (get_all, db(**sel)), also with "
+              "value lists beyond 950. SQL TEXT TIE (Props/C19K.lean): get_intersection's statement builder (field list, INNER JOIN, ON conditions, trims) and the cutting of the joined rows are TRANSLATED on every run (Gen/Sql.lean); MicroSql parses and "
+              "evaluates the join; getIntersection_eq_sql: Model.getIntersection = translated text -> MicroSql -> translated cutting for every database, column string and match list in the domain (errors inside the equation); the recorded statement "
+              "text = the translated builder's, MicroSql = sqlite3 on it (as sorted rows)."),
+        note=BASE_NOTE + "INNER JOIN = nested loop (MicroSql's join) is a contract, sampled against sqlite3 on every recorded statement; the order of joined rows is unspecified in SQLite and never relied upon; intersect's data2pdb / re-parse step and the many2sql constructor stay hand-modelled.",
         technique='Lean 4 proof over a nested-loop join model + differential correspondence for every match-key subset',
         design_ref='DESIGN.md 5/C19, 12'),
     'C07': dict(
